@@ -293,3 +293,22 @@ pub fn san_to_spec(s: &SanType) -> SanSpec {
         _ => SanSpec::Dns("<unknown SanType variant>".into()),
     }
 }
+
+/// Default certificate state of the current build: without a crypto back end rcgen needs an explicit
+/// serial number and pre-specified key identifiers.
+pub fn base_cert_state() -> CertState {
+    let mut st = CertState::default();
+    if !cfg!(feature = "crypto") {
+        st.key_id = KeyIdSpec::Pre(vec![0x0c, 0x16]);
+        st.serial = Some(vec![0x2a]);
+    }
+    st
+}
+
+pub fn base_crl_state() -> CrlState {
+    let mut st = CrlState::default();
+    if !cfg!(feature = "crypto") {
+        st.key_id = KeyIdSpec::Pre(vec![0x0c, 0x16]);
+    }
+    st
+}
